@@ -82,6 +82,15 @@ theorem q_e (p : SnowIn α) (v : Visf α) (hv : p.visf = some v) (pvap : α → 
   simp only [qEvap, hv, F1D.q_e]
   rw [if_pos hw]
 
+/-- the same in the solidification loop (its own `q_e = -N_w * dHe` statement in the source) -/
+theorem solid_q_e (p : SnowIn α) (v : Visf α) (hv : p.visf = some v) (pvap : α → α) (t Ttop : α)
+    (hw : v.t_vac_start * ofNat' 3600 < t ∧ t < (v.t_vac_start + v.t_vac_duration) * ofNat' 3600) :
+    qEvap p pvap t Ttop =
+      F1D.solid_q_e (N_w := Evap.vapourFlux v.kappa v.m_water p.const.k_B v.p_vac (pvap Ttop) Ttop Ttop)
+        (dHe := v.dHe) := by
+  simp only [qEvap, hv, F1D.solid_q_e]
+  rw [if_pos hw]
+
 /-! ### cooling stage: the three stencil pieces, per node -/
 
 theorem aget_ofFn {n : Nat} (f : Fin n → α) (j : Nat) (h : j < n) : aget (Array.ofFn f) j = f ⟨j, h⟩ := by
